@@ -301,7 +301,7 @@ def rule_cd(ctx, R, sector, gauss_site):
         n = ("n", l, flds[0]) if flds and flds[0] in d["fields_of"].get(l, ()) else ("n", l, None)
         return set(x for x in d["close"](n) if x[0] == "site")
 
-    for bi2, si2, st2 in pat.aggregates(s, "Metadata"):
+    for bi2, si2, st2 in common.built_structs(f, R, s, "Metadata"):
         rv = st2["rv"]
         for fld, grp, gname in (("q_vectors", S_gau, "Gaussian"), ("lambda", S_lam, "lambda")):
             if fld in rv["fields"]:
